@@ -192,6 +192,16 @@ def run_impl(m, X, method, sent_rng):
             return ret
         return recorder
     patches = [gm.Patched(mvn, fn, mk(fn)) for fn in ('pdf', 'cdf', 'logpdf', 'logcdf')]
+    # the data handed to each fitted marginal's cdf (which column goes to which univariate)
+    cdf_calls = {}
+
+    def spy(j, orig):
+        def cdf(X, *a, **k):
+            cdf_calls.setdefault(j, []).append(np.array(X, dtype=float, copy=True))
+            return orig(X, *a, **k)
+        return cdf
+    for j, u in enumerate(m.univariates or []):
+        patches.append(gm.Patched(u, 'cdf', spy(j, u.cdf)))
     for p in patches:
         p.__enter__()
     try:
@@ -205,6 +215,8 @@ def run_impl(m, X, method, sent_rng):
     finally:
         for p in reversed(patches):
             p.__exit__(None, None, None)
+    if rec:
+        rec[0]['cdf_calls'] = cdf_calls
     return res, rec
 
 
@@ -292,6 +304,14 @@ def compare(m, case, model, res, rec):
     if x.shape != (len(toks), width):
         bad.append(('score-shape', f'model: score matrix {len(toks)}x{width}; implementation handed {x.shape} to scipy'))
     elif toks:
+        calls = r.get('cdf_calls') or {}
+        for p_ in range(width):
+            j_ = toks[0][p_][0]
+            vals = np.array([case['pts'][t_[p_][1] // 1000, t_[p_][1] % 1000] for t_ in toks])
+            if calls and (len(calls.get(j_, [])) != 1 or not np.array_equal(calls[j_][0].ravel(), vals)):
+                got = [c.ravel().tolist()[:4] for c in calls.get(j_, [])]
+                bad.append(('cdf-input', f'model: univariate {j_} evaluates its cdf once, on the cells {vals.tolist()[:4]}...; implementation: {got}'))
+                break
         exp = expected_scores(m, case, toks)
         if not close(x, exp):
             ij = np.argwhere(~np.isclose(x, exp, rtol=1e-9, atol=1e-9, equal_nan=True))
@@ -411,7 +431,7 @@ def witness(ctx, zoo, seed, quick):
                                             'rows': n, 'agree': ok1}, nontrivial=True)
         if not ok1:
             i = int(np.argmax(~np.isclose(p_impl, p_ref, rtol=1e-9, atol=0, equal_nan=True))) if p_impl.shape == p_ref.shape else 0
-            viol(f'witness:pdf-differs-from-mvn:{name}', f'{name}: probability_density(row {pts[i].tolist()}) = {p_impl[i] if len(p_impl) > i else p_impl} but the zero-mean MVN '
+            viol('witness:pdf-differs-from-mvn', f'{name}: probability_density(row {pts[i].tolist()}) = {p_impl[i] if len(p_impl) > i else p_impl} but the zero-mean MVN '
                  f'density with the fitted correlation at the normal scores {S[i].tolist()} is {p_ref[i]}', name, Xf)
         if np.linalg.cond(C) < 1e6 and d <= 6:
             cf = closed_form_pdf(C, S)
@@ -422,7 +442,7 @@ def witness(ctx, zoo, seed, quick):
         lp = impl_call(m, 'log_probability_density', Xf)
         with np.errstate(all='ignore'):
             if not (lp.shape == p_impl.shape and np.array_equal(lp, np.log(p_impl), equal_nan=True)):
-                viol(f'witness:logpdf-not-log-of-pdf:{name}', f'{name}: log_probability_density != log(probability_density)', name, Xf)
+                viol('witness:logpdf-not-log-of-pdf', f'{name}: log_probability_density != log(probability_density)', name, Xf)
         # ---- W2 CDF = MVN CDF at the scores, range, monotone per coordinate
         k = min(n, 4 if quick else 10)
         c_impl = impl_call(m, 'cumulative_distribution', Xf.iloc[:k], seed=77)
@@ -431,10 +451,10 @@ def witness(ctx, zoo, seed, quick):
         ctx.case(('witness', name, 'cdf'), {'oracle': 'cdf = independent MVN cdf at the scores (same quasi-MC seed)', 'model': name, 'rows': k,
                                             'agree': ok2}, nontrivial=True)
         if not ok2:
-            viol(f'witness:cdf-differs-from-mvn:{name}', f'{name}: cumulative_distribution {c_impl.tolist()} vs MVN CDF at the normal scores {c_ref.tolist()}', name, Xf.iloc[:k])
+            viol('witness:cdf-differs-from-mvn', f'{name}: cumulative_distribution {c_impl.tolist()} vs MVN CDF at the normal scores {c_ref.tolist()}', name, Xf.iloc[:k])
         slack = 1e-12 if d <= 2 else 2e-4        # d >= 3: scipy integrates by randomised QMC with abseps = 1e-5
         if np.any(c_impl < -slack) or np.any(c_impl > 1 + slack) or np.any(~np.isfinite(c_impl)):
-            viol(f'witness:cdf-outside-unit-interval:{name}', f'{name}: cumulative_distribution returned {c_impl.tolist()}', name, Xf.iloc[:k])
+            viol('witness:cdf-outside-unit-interval', f'{name}: cumulative_distribution returned {c_impl.tolist()}', name, Xf.iloc[:k])
         span = np.maximum(df.max().to_numpy(float) - df.min().to_numpy(float), 1.0)
         for j in range(d):
             for step in (0.25 * span[j], 1e3 * span[j]):
@@ -444,35 +464,35 @@ def witness(ctx, zoo, seed, quick):
                 S2 = np.asarray(m._transform_to_normal(Y), float)
                 S1 = np.asarray(m._transform_to_normal(Xf.iloc[:k]), float)
                 if np.any(S2[:, j] < S1[:, j]) or not np.array_equal(np.delete(S1, j, 1), np.delete(S2, j, 1)):
-                    viol(f'witness:score-not-monotone:{name}', f'{name}: raising coordinate {L[j]!r} by {step} lowered its normal score or changed another score', name, Y)
+                    viol('witness:score-not-monotone', f'{name}: raising coordinate {L[j]!r} by {step} lowered its normal score or changed another score', name, Y)
                 if step > span[j]:
                     continue
                 c2 = impl_call(m, 'cumulative_distribution', Y, seed=77)
                 if np.any(c2 < c_impl - slack):
                     i = int(np.argmin(c2 - c_impl))
-                    viol(f'witness:cdf-not-monotone:{name}', f'{name}: raising coordinate {L[j]!r} of row {pts[i].tolist()} by {step} lowers the CDF from {c_impl[i]} to {c2[i]}', name, Y)
+                    viol('witness:cdf-not-monotone', f'{name}: raising coordinate {L[j]!r} of row {pts[i].tolist()} by {step} lowers the CDF from {c_impl[i]} to {c2[i]}', name, Y)
         # ---- W3 row i depends only on row i
         alone = np.concatenate([impl_call(m, 'probability_density', Xf.iloc[i:i + 1]) for i in range(n)])
         Z = Xf.copy()
         Z.iloc[1:] = Z.iloc[1:].to_numpy()[::-1] if n > 2 else Z.iloc[1:]
         other = impl_call(m, 'probability_density', Z)
         if not (close(alone, p_impl, 1e-12) and close(other[:1], p_impl[:1], 1e-12)):
-            viol(f'witness:not-rowwise:{name}', f'{name}: the density of a row changes with the other rows of the batch', name, Xf)
+            viol('witness:not-rowwise', f'{name}: the density of a row changes with the other rows of the batch', name, Xf)
         # ---- W4 same result for every container / permutation
         perms = gm.all_or_some_perms(d, rng, 4)
         for p in perms[:6]:
             Xp = Xf[[L[q] for q in p]]
             if not close(impl_call(m, 'probability_density', Xp), p_impl, 1e-12):
-                viol(f'witness:permutation-changes-pdf:{name}', f'{name}: probability_density differs for the column order {[str(L[q]) for q in p]}', name, Xp)
+                viol('witness:permutation-changes-pdf', f'{name}: probability_density differs for the column order {[str(L[q]) for q in p]}', name, Xp)
             if not close(impl_call(m, 'pdf', Xp.iloc[0]), p_impl[:1], 1e-12):
-                viol(f'witness:series-changes-pdf:{name}', f'{name}: pdf(Series in order {[str(L[q]) for q in p]}) differs from the DataFrame row', name, Xp.iloc[:1])
+                viol('witness:series-changes-pdf', f'{name}: pdf(Series in order {[str(L[q]) for q in p]}) differs from the DataFrame row', name, Xp.iloc[:1])
         if not (close(impl_call(m, 'pdf', pts), p_impl, 1e-12) and close(impl_call(m, 'pdf', pts[0]), p_impl[:1], 1e-12)):
-            viol(f'witness:array-changes-pdf:{name}', f'{name}: pdf(2-d / 1-d array in training order) differs from the DataFrame result', name, pts)
+            viol('witness:array-changes-pdf', f'{name}: pdf(2-d / 1-d array in training order) differs from the DataFrame result', name, pts)
         pr = perms[-1]
         cperm = impl_call(m, 'cdf', Xf.iloc[:k][[L[q] for q in pr]], seed=77)
         carr = impl_call(m, 'cdf', pts[:k], seed=77)
         if not (close(cperm, c_impl, 1e-9) and close(carr, c_impl, 1e-9)):
-            viol(f'witness:container-changes-cdf:{name}', f'{name}: cdf differs between DataFrame, permuted DataFrame and array', name, Xf.iloc[:k])
+            viol('witness:container-changes-cdf', f'{name}: cdf differs between DataFrame, permuted DataFrame and array', name, Xf.iloc[:k])
         # ---- W6 (D3) a frame that lacks a training column is not a query point: is it answered anyway?
         if d >= 2:
             sub = Xf[[L[0]]].iloc[:2]
@@ -593,7 +613,7 @@ def run(ctx):
     for k, v in status.items():
         ctx.obligation(f'translate:{k}', v is None, 'translation', v or '')
     ctx.copy_src('Props/C13.v')
-    proved = ctx.compile(['Gen_gm_scores.v', 'C13.v'])
+    proved = all(v is None for v in status.values()) and ctx.compile(['Gen_gm_scores.v', 'C13.v'])
     gen = 'Gen_gm_scores C13'
     if not proved:
         # tie broken: evaluate the hand-written model instead so that a concrete failing input can still be exhibited
@@ -633,7 +653,7 @@ def run(ctx):
         ctx.case(key, describe(case), nontrivial=(model[0] == 'ok' and len(case['pts']) > 0) if not bad or bad[0][0] != 'harness' else False)
         if bad:
             what = f"{case['model']} {case['method']}({case['kind']} {case['tag']}): " + '; '.join(f'{a}: {b}' for a, b in bad)
-            kslug = f"corr:{bad[0][0]}:{case['kind']}:{case['tag'].split(':')[0]}:{case['method']}"
+            kslug = f"corr:{bad[0][0]}:{case['kind']}"
             ctx.violation(kslug, what, {**describe(case), 'points': case['pts'].tolist(), 'model_prediction': o[:1500],
                                         'disagreements': bad, 'repro': repro_snippet(ctx.seed, ctx.tier, case)})
         else:
